@@ -34,6 +34,40 @@ def service_ids():
 
 
 DATAS = [None, b'', b'\x00', b'\x01\x02']
+APP = ' / with an application subclass of the service declared'
+
+
+def target_sid(c):
+    if c.entry in (1701, 1703):
+        return c.ints[0]
+    if c.entry == 1705:
+        return c.ints[0] if c.ints[0] in _svc else c.ints[0] - 0x40
+    p = c.blobs[0]
+    if c.entry == 1702:
+        return p[0] if p else -1
+    return (p[1] if len(p) > 1 else -1) if p[:1] == b'\x7f' else (p[0] - 0x40 if p else -1)
+
+
+class app_subclass:
+    """while the block runs, `class App<Service>(<Service>): pass` exists (and is gone afterwards: other cases run without it)"""
+
+    def __init__(self, c):
+        self.c = c
+        self.made = []
+
+    def __enter__(self):
+        if self.c.tag.endswith(APP):
+            cls = _svc.get(target_sid(self.c))
+            if cls is not None:
+                self.made.append(type('App' + cls.__name__, (cls,), {}))
+        return self
+
+    def __exit__(self, *a):
+        if self.made:
+            import gc
+            self.made.clear()
+            gc.collect()
+        return False
 
 
 def gen_cases(tier, seed):
@@ -57,6 +91,18 @@ def gen_cases(tier, seed):
         for code in range(-1, 258):
             for d in DATAS:
                 yield Case(1703, [sid, code, 0 if d is None else 1], [d or b''], 'resp.get_payload')
+    # an application may derive its own class from a library service (BaseService lists "the most original" classes first so that
+    # this is harmless): with such a class declared, the library service still round-trips to itself and owns its identifiers
+    for sid in sids:
+        for sub in (-1, 0, 1):
+            yield Case(1701, [sid, sub, 0, 1, -1], [b'\x01\x02'], 'req.get_payload' + APP)
+        for code in (0, 0x22):
+            yield Case(1703, [sid, code, 1], [b'\x01\x02'], 'resp.get_payload' + APP)
+        yield Case(1705, [sid], [], 'id lookup' + APP)
+        yield Case(1705, [sid + 0x40], [], 'id lookup' + APP)
+        yield Case(1702, [], [bytes([sid, 1, 2, 3])], 'req.from_payload' + APP)
+        yield Case(1704, [], [bytes([sid + 0x40, 1, 2, 3])], 'resp.from_payload' + APP)
+        yield Case(1704, [], [bytes([0x7F, sid, 0x22])], 'resp.from_payload' + APP)
     tails = [b'', b'\x00', b'\x01\x02']
     yield Case(1702, [], [b''], 'req.from_payload')
     yield Case(1704, [], [b''], 'resp.from_payload')
@@ -101,6 +147,11 @@ def m_payload(f):
 
 
 def impl(c):
+    with app_subclass(c):
+        return _impl(c)
+
+
+def _impl(c):
     from udsoncan import Request, Response
     from udsoncan.BaseService import BaseService
     e = c.entry
@@ -123,7 +174,7 @@ def impl(c):
     if e == 1702:
         return enc_req(Request.from_payload(c.blobs[0]))
     if e == 1703:
-        sid, code, hasd = c.ints
+        sid, code, hasd = c.ints[:3]
         svc = _svc.get(sid) if sid >= 0 else None
         try:
             r = Response(svc, None if code < 0 else code, c.blobs[0] if hasd else None)
@@ -154,6 +205,11 @@ def all_service_classes():
 
 
 def oracle(c, r):
+    with app_subclass(c):
+        return _oracle(c, r)
+
+
+def _oracle(c, r):
     """the statement of C17 evaluated on the real objects"""
     from udsoncan import Request, Response
     e = c.entry
@@ -184,7 +240,7 @@ def oracle(c, r):
             return ('req-roundtrip', 'Request(sid=%#x, sub=%s, spr=%s, data=%r) parses back as %r' % (sid, sub, spr, data, got[1:]))
         return None
     if e == 1703:
-        sid, code, hasd = c.ints
+        sid, code, hasd = c.ints[:3]
         svc = _svc.get(sid) if sid >= 0 else None
         if svc is None or not (0 <= code <= 255):
             return None
@@ -211,6 +267,9 @@ def oracle(c, r):
             q = (Request if e == 1702 else Response).from_payload(p)
         except Exception as ex:
             return ('parse-raises', 'from_payload(%s) raised %s' % (p.hex(), type(ex).__name__))
+        if q.service is not None and q.service is not _svc.get(q.service._sid):
+            return ('parsed-class', 'from_payload(%s) names the class %s, the library service with that identifier is %s' % (
+                p.hex(), q.service.__name__, _svc.get(q.service._sid).__name__))
         if e == 1704:
             if q.valid:
                 try:
@@ -224,6 +283,12 @@ def oracle(c, r):
         return None
     if e == 1705:
         i = c.ints[0]
+        from udsoncan.BaseService import BaseService
+        for got, want in ((BaseService.from_request_id(i), _svc.get(i)), (BaseService.from_response_id(i), _svc.get(i - 0x40))):
+            if want is not None and got is not want:
+                return ('id-lookup-class', 'identifier %#x resolves to %s, the library service is %s' % (i, getattr(got, '__name__', None), want.__name__))
+        if c.tag.endswith(APP):
+            return None
         classes = all_service_classes()
         nreq = [k for k in classes if k.request_id() == i]
         nresp = [k for k in classes if k.response_id() == i]
